@@ -2,6 +2,7 @@
 import VDriver.Util
 import VDriver.Auth
 import VModel.Auth
+import VDriver.AuthNeeded
 namespace V.Driver.CtxOps
 open V V.Json V.Driver V.Auth V.Driver.AuthOps
 
@@ -52,6 +53,7 @@ def step (evs : Array Event) (s : St) (st : String) : St :=
 
 def handle (op : String) (args : Array String) : Option String :=
   match op, args.toList with
+  | "needed", as => NeededOps.handle as
   | "seq", [ver, provs, evs, steps] =>
     let v := strBytes ver
     let ps : Option (List (List Event)) := (provs.splitOn "|").mapM (fun p =>
